@@ -22,3 +22,4 @@ def run(col, configs, tier):
         guarded(col, sep.rule_peek_dispatch, facts)
         guarded(col, sep.rule_end_of_buffer_neutral, facts)
         guarded(col, sep.rule_lookaround_kind, facts)
+        guarded(col, sep.rule_take_n_twins, facts)
